@@ -409,6 +409,8 @@ class Analyzer:
                 if k in params:
                     st[params.index(k)] = v
             return self.analyze(callee, tuple(st))
+        if last in ("list", "tuple", "iter", "reversed") and len(args) == 1 and recv is None and is_tuple(args[0]):
+            return args[0]          # a container of structured elements keeps the structure
         if last in ("zip",):
             return ("T", tuple(self.elem(a) for a in args)) if args and not any(isinstance(x, ast.Starred) for x in e.args) else max([flat(a) for a in args] or [NONE])
         if last == "enumerate" and args:
